@@ -646,6 +646,122 @@ fn server_case_ex(ctx: &mut Ctx, bad: &[u8], split: usize, cont: &[u8], pre_vali
     false
 }
 
+/// Requests of the same connection are already with the application (yielded, unanswered) when the malformed
+/// request arrives; a well-formed request follows; then the application answers everything, one by one or in
+/// one batch. The malformed request must not make the later one (or the answering) fail.
+fn server_held_case(ctx: &mut Ctx, bad: &[u8], nheld: usize, batch: bool, close_after: bool) -> bool {
+    use crate::sim::{judge_client, JudgeOpts, PollOut, ReqKind, Sim};
+    if !ctx.begin() {
+        return false;
+    }
+    ctx.rep.evaluations += 1;
+    ctx.rep.count("server_cases_with_unanswered_requests_at_the_error");
+    let mut sim = match Sim::new(false, None) {
+        Ok(s) => s,
+        Err(_) => return false,
+    };
+    let fail = |ctx: &mut Ctx, kind: &str, d: String| {
+        let c = J::obj(vec![
+            ("engine", J::s("server-simulator")),
+            ("family", J::s("held")),
+            ("bad_hex", J::hexs(bad)),
+            ("bad_show", J::s(&show(bad))),
+            ("held", J::u(nheld as u64)),
+            ("batch", J::Bool(batch)),
+            ("close_after", J::Bool(close_after)),
+        ]);
+        ctx.rep.violation(&format!("C11:server:{}", kind), d, c);
+        true
+    };
+    sim.connect(0);
+    sim.connect(1); // a bystander
+    sim.poll();
+    sim.poll();
+    let gi = 0;
+    for _ in 0..nheld {
+        sim.send_request(gi, ReqKind::Get);
+    }
+    sim.send_request(1, ReqKind::Get);
+    for _ in 0..6 {
+        if sim.poll() == PollOut::Idle {
+            break;
+        }
+    }
+    if sim.gens[gi].yielded.len() != nheld {
+        return fail(ctx, "fault", format!("{} requests sent, {} yielded before the malformed one", nheld, sim.gens[gi].yielded.len()));
+    }
+    sim.send_bytes(gi, bad);
+    for _ in 0..16 {
+        let idle = sim.poll() == PollOut::Idle;
+        sim.drain(gi, 0);
+        if idle {
+            break;
+        }
+    }
+    match judge_client(&sim.gens[gi], &JudgeOpts { allow_500: false }) {
+        Ok(v) if v.bad_requests >= 1 && v.partial_tail == 0 => {}
+        other => return fail(ctx, "no-400", format!("the client sent {:?} and has not received a complete 400: {:?}", show(bad), other.map(|v| v.bad_requests))),
+    }
+    // the later well-formed request
+    sim.send_request(gi, ReqKind::Get);
+    let later = sim.gens[gi].completed.last().cloned().unwrap_or_default();
+    for _ in 0..8 {
+        if sim.poll() == PollOut::Idle {
+            break;
+        }
+    }
+    if !sim.gens[gi].yielded.contains(&later) {
+        return fail(ctx, "later-valid-request-not-yielded", format!("yielded {:?}; {} was sent after the 400", sim.gens[gi].yielded, later));
+    }
+    // the application answers everything it holds: the requests from before the error, the later one, the bystander's
+    if batch {
+        let order: Vec<usize> = (0..sim.outstanding.len()).collect();
+        sim.respond_batch(&order, 0);
+    } else {
+        while !sim.outstanding.is_empty() {
+            sim.respond(0, 0);
+        }
+    }
+    for _ in 0..24 {
+        let idle = sim.poll() == PollOut::Idle;
+        sim.drain_all();
+        if idle {
+            break;
+        }
+    }
+    if let Some((step, e)) = sim.api_errors.first() {
+        return fail(ctx, "api-error", format!("step {}: {} ({} requests were unanswered when the malformed request arrived)", step, e, nheld));
+    }
+    for g in [gi, 1] {
+        match judge_client(&sim.gens[g], &JudgeOpts { allow_500: false }) {
+            Err((k, d)) => return fail(ctx, &k, d),
+            Ok(v) => {
+                if v.app_responses != sim.gens[g].supplied.len() || v.partial_tail != 0 {
+                    return fail(
+                        ctx,
+                        "later-valid-request-not-answered",
+                        format!("c{}: {} answers supplied, {} received ({} requests were unanswered when the malformed request arrived; batch: {})", g, sim.gens[g].supplied.len(), v.app_responses, nheld, batch),
+                    );
+                }
+            }
+        }
+    }
+    if close_after {
+        // and the connection is released once its client leaves (nothing is owed any more)
+        sim.close(gi);
+        for _ in 0..6 {
+            if sim.poll() == PollOut::Idle {
+                break;
+            }
+        }
+        if sim.server_side_sockets().iter().any(|(_, g)| *g == Some(gi)) {
+            return fail(ctx, "connection-kept-after-everything-was-answered", format!("the client left after all its {} answers were supplied; the server still holds its socket", sim.gens[gi].supplied.len()));
+        }
+    }
+    ctx.rep.count("server_later_request_answered_with_earlier_ones_held");
+    false
+}
+
 fn server_family(ctx: &mut Ctx) {
     let bads: Vec<Vec<u8>> = vec![
         b"GET /REJECTED HTTP/1.1\r\nbadheader\r\n\r\n".to_vec(),
@@ -673,6 +789,25 @@ fn server_family(ctx: &mut Ctx) {
     ];
     let conts: Vec<&[u8]> = vec![b"", b"\r\n", b"\r\n\r\n", b"Content-Length: 1\r\n\r\nX", b"X-More: h\r\n\r\n", b"\x00garbage\r\n"];
     let mut idx = 0u64;
+    for (bi, bad) in bads.iter().enumerate() {
+        // only offending requests that are complete in themselves (nothing of them is left to arrive)
+        if !(bad.ends_with(b"\r\n\r\n") || bi == 2) {
+            continue;
+        }
+        for nheld in 1..=3usize {
+            for batch in [false, true] {
+                for close_after in [false, true] {
+                    idx += 1;
+                    if !ctx.mine(idx) {
+                        continue;
+                    }
+                    if server_held_case(ctx, bad, nheld, batch, close_after) && ctx.rep.violations_total > 30 {
+                        return;
+                    }
+                }
+            }
+        }
+    }
     for bad in &bads {
         let splits: Vec<usize> = if ctx.quick() { vec![0, 5, bad.len().saturating_sub(3)] } else { (0..bad.len().min(60)).chain([bad.len().saturating_sub(3), bad.len() / 2]).collect() };
         for split in splits {
@@ -700,6 +835,11 @@ fn server_family(ctx: &mut Ctx) {
 }
 
 pub fn replay(ctx: &mut Ctx, case: &J) {
+    if case.gs("family") == "held" {
+        ctx.only_case = None;
+        server_held_case(ctx, &case.ghex("bad_hex"), case.gu("held") as usize, matches!(case.get("batch"), Some(J::Bool(true))), matches!(case.get("close_after"), Some(J::Bool(true))));
+        return;
+    }
     if case.gs("engine") == "server-simulator" {
         ctx.only_case = None;
         server_case_ex(ctx, &case.ghex("bad_hex"), case.gu("split") as usize, &case.ghex("continuation_hex"), matches!(case.get("pre_valid"), Some(J::Bool(true))), matches!(case.get("ahead"), Some(J::Bool(true))));
